@@ -114,11 +114,13 @@ CHECKS["C14"] = dict(
          "fluid laws): the chain's residual vanishes iff the first node equals the inlet and, panel by panel in declared "
          "order with the previous node as inlet, every tube's enthalpy gain equals the convective heat from its wall and "
          "each manifold is the multiplier-weighted mean; reported velocities carry exactly the prescribed mass flow; "
-         "reported fluid temperatures are affine from panel inlet to tube outlet.  Tied to flowpath.py by comparing "
-         "RJ(T)[0], recover_tube_results and the residual at solve()'s output with the model on random chains.",
+         "reported fluid temperatures are affine from panel inlet to tube outlet.  Tied to flowpath.py twice: a translator "
+         "regenerates the link equations (enthalpy gain, convective heat, velocities, fluid temperatures, manifold and start "
+         "residuals) from the source on every run and they are proved equal to the model's definitions; and "
+         "RJ(T)[0], recover_tube_results and the residual at solve()'s output are compared with the model on random chains.",
     note="Trusted: Coq kernel; rational stub fluid (shipped fluids: C18); jacfwd/spsolve affect only convergence; time "
          "interpolation by scipy interp1d mirrored in the harness.",
-    technique="Coq proof (list induction, field algebra over Q) + residual/certificate correspondence by vm_compute",
+    technique="Coq proof (list induction, field algebra over Q) + link equations regenerated from the source + residual/certificate correspondence by vm_compute",
     design="4/C14")
 
 CHECKS["C07"] = dict(
